@@ -93,4 +93,9 @@ def cancelOutcome (k : Nat) : Nat → List (List Call) → List Call × Err × N
       let r := cancelOutcome k (x + openedCount b) rest
       (b ++ r.1, r.2.1, r.2.2 + 1)
 
+/-- what a scan must do when its context is cancelled right after the j-th `handleFile` call has returned
+(j ≥ 1): the calls so far are complete, nothing later is attempted, and the scan fails iff a call remained -/
+def cancelBetween (j : Nat) (T : List (List Call)) : List Call × Err × Nat :=
+  ((T.take j).flatten, (if T.drop j = [] then .none else .ctx), j + (if T.drop j = [] then 0 else 1))
+
 end Scalibr.Walk
